@@ -496,6 +496,9 @@ def _check_search_independence(repo, r3, s):
         mutable = isinstance(v, (ast.Dict, ast.List, ast.Set)) or (isinstance(v, ast.Call) and dotted(v.func) in ("dict", "list", "set", "collections.defaultdict", "defaultdict"))
         if not mutable or nm == "DEFAULT_CONFIG":
             continue
+        from ..normalize import _mutated, _escapes
+        if not _mutated(mod.tree, nm) and not _escapes(mod.tree, nm, repo=repo, module=mod):
+            continue   # a read-only table (e.g. the list of required fields) is a constant, not state
         for fn in [pc] + [f for f in mod.functions.values()]:
             for n in ast.walk(fn.node):
                 if isinstance(n, ast.Name) and n.id == nm:
@@ -584,13 +587,34 @@ def _check_registry(repo, r4):
         if fi is None:
             r4.fail(ml.rel, "SSEModuleClassLoader", 0, "loader property %s" % prop, "SSEModuleClassLoader.%s vanished" % prop)
             continue
-        src = unparse(fi.node)
-        ok = ("self.%s()" % loader) in src and ("getattr(self.%s, class_name)" % modattr) in src and (suf is None or suf in src) and \
-            all((x not in src) for x in want if x.endswith("SUFFIX") and x != suf)
-        r4.require(ok, fi, "loader property %s" % prop, "SSEModuleClassLoader.%s no longer loads %s and resolves sse_name + %s" % (prop, modattr, suf))
+        # every normal path: the loader ran, and the class looked up in that module is <sse_name><suffix>
+        from ..pathsum import summarize as _sum
+        from .. import straight as _S
+        NAME = ("attr", ("var", "self"), "_sse_name")
+        sval = None
+        if suf is not None:
+            try:
+                sval = repo.const_value(ml, ml.globals[suf])
+            except Exception:
+                sval = None
+        cnames = [NAME] if suf is None else [("cat", (NAME, ("const", sval))), ("cat", (NAME, ("var", suf)))]
+        MOD = ("attr", ("var", "self"), modattr)
+        ok, seen = True, False
+        for ps in _sum(fi):
+            if ps.exc is not None:
+                continue
+            seen = True
+            loaded = any(e[0] == "call" and e[1] == ("call", ("fn", "self." + loader), (), ()) for e in ps.events)
+            rt = ps.ret
+            good = rt is not None and rt[0] == "call" and rt[1] == ("fn", "getattr") and len(rt[2]) >= 2 and rt[2][0] == MOD and rt[2][1] in cnames
+            if not (loaded and good):
+                ok = False
+        r4.require(ok and seen, fi, "loader property %s" % prop, "SSEModuleClassLoader.%s no longer loads %s and resolves sse_name + %s" % (prop, modattr, suf))
     lm = repo.func("schemes/__init__.py", "load_sse_module")
-    src = unparse(lm.node)
-    r4.require("import_module" in src and "raise ValueError" in src, lm, "load_sse_module", "load_sse_module no longer imports by name / refuses unknown schemes")
+    imports = any(isinstance(c, ast.Call) and (dotted(c.func) or "").endswith("import_module") for c in ast.walk(lm.node))
+    from ..facts import facts_of as _fo
+    refuses = any(name and name.split(".")[-1] == "ValueError" for _n, name, _f in _fo(lm).raises())
+    r4.require(imports and refuses, lm, "load_sse_module", "load_sse_module no longer imports by name / refuses unknown schemes")
 
 
 # ----------------------------------------------------------------------------- self-test variants
